@@ -5,6 +5,7 @@ import (
 	"fmt"
 	"os"
 	"path/filepath"
+	"regexp"
 	"sort"
 	"strings"
 	"sync/atomic"
@@ -224,7 +225,7 @@ func runProperty(g *Gen, prop, tier, out string, cfg SolverCfg, t0 time.Time) in
 			if !kindMatches(pu, ob) {
 				continue
 			}
-			seen[ob.FullName()] = true
+			seen[baselineName(ob.FullName())] = true
 			solverMs += ob.Ms
 			if ob.Cover {
 				if ob.Info {
@@ -264,7 +265,7 @@ func runProperty(g *Gen, prop, tier, out string, cfg SolverCfg, t0 time.Time) in
 	}
 	// baseline: every expected obligation must have been regenerated
 	for _, n := range baseline {
-		if !seen[n] {
+		if !seen[baselineName(n)] {
 			ob := &Obligation{Unit: n[:strings.Index(n+"/", "/")], Name: n[strings.Index(n+"/", "/")+1:], Kind: "baseline", Clause: "obligation listed in baseline/" + prop + ".txt is generated again", Result: "missing"}
 			found := false
 			for _, v := range viols {
@@ -451,11 +452,19 @@ func cfgDirOf(out string) string {
 // invariants, anchored asserts) are listed in the baseline. Automatically generated safety,
 // frame, lock and cover obligations are numbered by occurrence and legitimately change with
 // harmless edits of the code, so their absence is not an alarm.
+var backEdgeRe = regexp.MustCompile(`/inv-pres\.b\d+#`)
+
+// baselineName drops the back-edge ordinal from invariant-preservation obligations: a loop that
+// gains or loses a "continue" keeps satisfying the same baseline entry.
+func baselineName(full string) string {
+	return backEdgeRe.ReplaceAllString(full, "/inv-pres#")
+}
+
 func baselineKind(full string) bool {
 	i := strings.Index(full, "/")
 	if i < 0 {
 		return false
 	}
 	n := full[i+1:]
-	return strings.HasPrefix(n, "ensures#") || strings.HasPrefix(n, "at:") || (strings.HasPrefix(n, "loop") && strings.Contains(n, "/inv-") && !strings.Contains(n, "#auto"))
+	return strings.HasPrefix(n, "ensures#") || (strings.HasPrefix(n, "loop") && strings.Contains(n, "/inv-") && !strings.Contains(n, "#auto"))
 }
